@@ -191,6 +191,30 @@ pub fn int_lattice(bits: u32, signed: bool) -> Vec<i128> {
     v
 }
 
+/// integers at and next to the rounding ties of f32 (24-bit) and f64 (53-bit) significands: where an
+/// int -> float cast rounds to even, and where rounding twice (through the wider float) differs
+pub fn int_rounding_boundaries(bits: u32, signed: bool) -> Vec<i128> {
+    let (min, max): (i128, i128) = if signed { (-(1i128 << (bits - 1)), (1i128 << (bits - 1)) - 1) } else { (0, (1i128 << bits) - 1) };
+    let mut v = vec![];
+    for m in [24u32, 53] {
+        for k in m..bits {
+            let p = 1i128 << k;
+            let h = 1i128 << (k - m);
+            for mult in [1i128, 3] {
+                for d in [-1i128, 0, 1] {
+                    let x = p + mult * h + d;
+                    v.push(x);
+                    v.push(-x);
+                    // plus a sticky bit far below the tie: invisible after a first rounding to 53 bits
+                    if k >= 54 && d == 1 { v.push(x + (1 << 20)); v.push(-(x + (1 << 20))); }
+                }
+            }
+        }
+    }
+    v.retain(|x| *x >= min && *x <= max);
+    v
+}
+
 /// quick-tier cut of the boundary lattice
 pub fn int_lattice_small(bits: u32, signed: bool) -> Vec<i128> {
     let (min, max): (i128, i128) = if signed {
